@@ -12,6 +12,7 @@
 //	dups     (searcher) no two de-duplicable constants of the real output are equal
 //	run3     (searcher) original vs de-duplicated vs de-duplicated+Encode/Decode (the cmd/tengo path) vs
 //	         Encode/Decode alone on the real VM: same globals, same error text incl. positions, per input
+//	lit, constwalk   see literals.go (round 8)
 //	gob      (searcher) Decode(Encode(bc)) preserves Instructions/NumLocals/NumParameters/VarArgs/SourceMap of
 //	         every function, the non-function constants, and every FileSet position
 package main
@@ -23,6 +24,7 @@ import (
 	"math"
 	"os"
 	"reflect"
+	"runtime/pprof"
 	"sort"
 	"strings"
 
@@ -659,6 +661,7 @@ func checkProgram(in replayInput) {
 	checkGobStructure(in, orig.BC, decOrig)
 	res.Count("gob", line, true)
 	_ = okRefs
+	constWalk(in, orig)
 	// --- runs
 	variants := []struct {
 		name string
@@ -991,6 +994,11 @@ func safeCall(f func()) (pv string) {
 
 func main() {
 	f := lib.ParseFlags()
+	if pf := os.Getenv("TMP_PROF"); pf != "" {
+		fh, _ := os.Create(pf)
+		pprof.StartCPUProfile(fh)
+		defer pprof.StopCPUProfile()
+	}
 	res = lib.NewResult("C12", f)
 	thorough = f.Thorough()
 	var err error
@@ -1016,8 +1024,17 @@ func main() {
 	for _, in := range corpus() {
 		checkProgram(in)
 	}
-	for _, in := range bigCorpus() {
-		checkProgram(in)
+	if os.Getenv("TMP_ONLY_LIT") == "" {
+		for _, in := range bigCorpus() {
+			checkProgram(in)
+		}
+	}
+	// round 8: literal families (own PRNG stream: the programs of the older streams stay what they were per seed)
+	litStream(lib.NewRNG(f.Seed^0x6c69746572616c73), f.Scale(250, 4000))
+	if os.Getenv("TMP_ONLY_LIT") != "" {
+		res.Write(f.Out)
+		pprof.StopCPUProfile()
+		return
 	}
 	rng := lib.NewRNG(f.Seed)
 	n := f.Scale(1500, 15000)
